@@ -137,6 +137,7 @@ static int g_nchange = 0;
 static int g_stall_victim = -1;
 static uint64_t g_stall_from = 0, g_stall_to = 0;
 static int g_prio_floor = 0;
+static int g_force_next = -1;  // thaw(): the released thread runs next (canonical default)
 
 // stats
 static gsim_ctl::RunStats g_stats;
@@ -550,6 +551,11 @@ static int choose_next(Thread* self)
     bool self_ok = (C >> self->id) & 1;
     int dflt;
     bool fair = (long)g_step >= g_s_fault;
+    int forced = -1;
+    if (g_force_next >= 0) {
+        if ((E >> g_force_next) & 1) forced = g_force_next;
+        g_force_next = -1;
+    }
     if (fair) {
         // round robin among enabled threads
         dflt = -1;
@@ -563,8 +569,9 @@ static int choose_next(Thread* self)
     } else {
         dflt = self_ok ? self->id : lowest(C);
     }
+    if (forced >= 0) dflt = forced;
     int chosen = dflt;
-    if (!g_replay && !fair) {
+    if (!g_replay && !fair && forced < 0) {
         int nC = __builtin_popcount(C);
         switch (g_strategy) {
             case S_WALK:
@@ -822,6 +829,7 @@ static void run_common(const gsim::Workload* w)
     memset(g_fault_rate, 0, sizeof g_fault_rate);
     g_faults_on = true;
     g_rw_pref = 0;
+    g_force_next = -1;
     g_check_races = false;
     g_prio_floor = 0;
     sync_run_reset();
@@ -1337,6 +1345,7 @@ bool is_frozen(int tid)
 void thaw(int tid)
 {
     if (g_thr[tid].frozen) tracef("        [T%d thawed]\n", tid);
+    if (g_thr[tid].frozen) g_force_next = tid;
     g_thr[tid].frozen = false;
     g_thr[tid].freeze_countdown = -1;
 }
